@@ -244,6 +244,26 @@ Proof.
       apply (proj1 (dedup_In _ _)) in Hh1. apply (proj1 (dedup_In _ _)) in Hh2.
       revert e He. apply (repetition_right h Hh1 Hh2). apply G2. exact Hh'.
 Qed.
+(* the sufficient guard of C10_io_repetition_chains_aligned implies the exact one *)
+Lemma used_adds adds : forall rem a r, In (a, r) (used adds rem) -> In a adds.
+Proof.
+  induction adds as [|a0 adds IH]; intros rem a r; cbn [used]; [intros []|].
+  destruct (partner H c true pairs X Y [] a0 rem) as [r0|].
+  - intros [E|Hin]; [inversion E; left; reflexivity|right; eapply IH; exact Hin].
+  - intros Hin. right. eapply IH; exact Hin.
+Qed.
+
+Theorem aligned_flat_guard : aligned H c (VList X) (VList Y) = true -> flat_guard.
+Proof.
+  intros A. cbn [aligned] in A. apply aligned_seq in A as (N & C1 & _). split.
+  - intros a r U. left. apply used_adds in U. unfold hashes_added in U. apply filter_In in U as [U _].
+    apply (proj1 (dedup_In _ _)) in U. apply indexes_single; assumption.
+  - intros h Hh E. exfalso. apply E. apply filter_In in Hh as [Hh2 Hh1]. apply mem_h_In in Hh1.
+    apply (proj1 (dedup_In _ _)) in Hh1. apply (proj1 (dedup_In _ _)) in Hh2.
+    rewrite (indexes_single h hh2 N Hh2).
+    pose proof (C1 h Hh1 Hh2) as L1. pose proof (indexes_nonempty h hh1 0 Hh1) as NE. unfold h1, h2 in *.
+    destruct (indexes_of h (map (hv H c true) X) 0) as [|k [|k' l]]; cbn in *; [congruence|reflexivity|lia].
+Qed.
 End Flat.
 
 (* the two witnesses of finding C10-repetition-t2-index violate the two clauses *)
